@@ -14,8 +14,12 @@
 (*                 of the score), symmetric, and every statistic is        *)
 (*                 invariant under permutation of the bootstrap list.      *)
 (*   SpecCache   : the spectrum cache with function objects that are       *)
-(*                 created, called and dropped; law: a call is always      *)
-(*                 served the spectrum of its own model.                   *)
+(*                 created, called (at points <<params, ns, grid>>) and    *)
+(*                 dropped; law: a call is always served the spectrum of   *)
+(*                 its own model at its own point.  Refuted variants: key  *)
+(*                 = number derived from the address (_hashkey), key       *)
+(*                 without one component of the point (_dropgrid, _dropns, *)
+(*                 _dropparams).                                           *)
 (***************************************************************************)
 EXTENDS Godambe, TLC
 CONSTANTS MaxDepth, Dims, KeyHoldsRef, Addrs, FullBoots
